@@ -195,10 +195,15 @@ class Query(QueryBase[QueryResult]):
         self._common_conditions()
 
         # Random sampling: generate a random number in (0, 1) based on the
-        # specification of SQLite's random() function.
+        # specification of SQLite's random() function. The term refers to the
+        # schedules row (0 * s.id) so that SQLite evaluates it once per flight
+        # instance: a condition without any column reference may be evaluated
+        # once per row of an outer join loop (per flight, or even per airport),
+        # which keeps or drops whole groups of instances together.
         if self.sample is not None:
             self._conditions.append(
-                '(random() + 9223372036854775808) / 18446744073709551615.0 < ?'
+                '(random() + 0 * s.id + 9223372036854775808) '
+                '/ 18446744073709551615.0 < ?'
             )
             self._params.append(self.sample)
 
